@@ -193,10 +193,34 @@ def run(ctx):
         others = len(loop.endpoints[0].sent) - sent0 - pings
         res = (cl.spa.struct.status_block == blk, [e[1].name for e in cl.events[nev:] if "PING" not in e[1].name], others,
                (cl.spa._protocol._sequence_counter_protocol, cl.spa._protocol._sequence_counter_command) == ctr, cl.spa._protocol.queue.qsize())
+        # the same right after a VALID packet for this connection that has a visible effect (an acknowledged partial update, an RF
+        # error report): a frame whose inner tags are damaged must not make the client act on anything - the previous packet included
+        after_valid = []
+        damaged = [b"<PACKT><SRCCN>" + S.SPA_ID + b"</SRCCN><DATAS>STATP\x01\x00\x05\x22\x22</DATAS></PACKT>",
+                   b"<PACKT><SRCCN>x</DESCN><DATAS>RFERR</DATAS></PACKT>", b"<PACKT>garbage</PACKT>", b"<PACKT></PACKT>",
+                   b"<PACKT><DESCN>" + S.CLIENT_ID + b"</DESCN><DATAS>RFERR</DATAS></PACKT>"]
+        for valid in (frame(S.SPA_ID, S.CLIENT_ID, b"STATP\x01\x00\x05\x11\x11"), frame(S.SPA_ID, S.CLIENT_ID, b"RFERR")):
+            for bad in damaged:
+                cl.spa._protocol.datagram_received(valid, vloop.SIMADDR)
+                await asyncio.sleep(0.45)
+                snap1 = (cl.spa.struct.status_block, len([e for e in cl.events if "PING" not in e[1].name]),
+                         len([1 for (t, d, a) in loop.endpoints[0].sent if b"APING" not in d]),
+                         (cl.spa._protocol._sequence_counter_protocol, cl.spa._protocol._sequence_counter_command))
+                cl.spa._protocol.datagram_received(bad, vloop.SIMADDR)
+                await asyncio.sleep(0.45)
+                snap2 = (cl.spa.struct.status_block, len([e for e in cl.events if "PING" not in e[1].name]),
+                         len([1 for (t, d, a) in loop.endpoints[0].sent if b"APING" not in d]),
+                         (cl.spa._protocol._sequence_counter_protocol, cl.spa._protocol._sequence_counter_command))
+                if snap1 != snap2:
+                    after_valid.append((valid[-30:], bad, [e[1].name for e in cl.events[-3:]], snap2[2] - snap1[2]))
         await cl.close()
-        return res
-    same_blk, evs, others, same_ctr, ql = vloop.run(inert)
+        return res + (after_valid,)
+    same_blk, evs, others, same_ctr, ql, after_valid = vloop.run(inert)
     ctx.count("inert_probe")
+    ctx.count("damaged_frame_after_valid_packet_probes", 10)
+    for valid, bad_d, last_events, sent in after_valid[:1]:
+        ctx.fail("dispatch:damaged_frame_effect", "a frame with damaged inner tags (%r), arriving after a valid packet (...%r), made the client act: last events %s, %d more datagram(s) sent"
+                 % (bad_d, valid, last_events, sent), {"valid_packet_tail": list(valid), "damaged_frame": list(bad_d), "events": last_events, "datagrams_sent": sent})
     if not (same_blk and not evs and others == 0 and same_ctr and ql == 0):
         ctx.fail("dispatch:misaddressed_effect", "a mis-addressed / malformed packet changed the client's state (block same=%s, events=%s, datagrams sent=%d, counters same=%s)" % (same_blk, evs, others, same_ctr),
                  {"block_unchanged": same_blk, "events": evs, "datagrams_sent": others})
